@@ -114,7 +114,7 @@ Section Walk.
     ++ w_children a s_multi_tags w_multi_tag ++ w_children a s_sources (w_source walk_fuel)
     ++ w_children a s_data_frames w_data_frame ++ [m_close].
   Definition walk_v : list wtok :=
-    [m_open; w_kind KFile] ++ w_children 0%nat s_data w_block
+    [m_open; w_kind KFile] ++ w_times 0%nat ++ w_children 0%nat s_data w_block
     ++ w_children 0%nat s_metadata (w_section walk_fuel) ++ [m_close].
 End Walk.
 
